@@ -176,8 +176,8 @@ def check_view_index_bounded(ctx, rule, fns):
 
 def check_cmdline_api_only(ctx, rule, unit):
     fns = [f for f in unit.functions if f.uq.startswith("frg::parse_arguments")]
-    if len(fns) < 2:
-        raise AnalysisBroken("anchor vanished: parse_arguments and its helper lambda")
+    if not any(not f.get("lambda") for f in fns):
+        raise AnalysisBroken("anchor vanished: parse_arguments")
     ALLOWED = {"find_first", "sub_string", "size", "operator==", "operator!=", "operator=", "apply", "begin", "end", "data",
                "operator()", "operator*", "operator++", "<ctor>", "basic_string_view"}
     for f in fns:
@@ -326,23 +326,45 @@ def check_int_conversion_table(ctx, unit):
         szp = [p["d"] for p in f.params() if "printf_size_mod" in p["t"]]
         if not szp:
             raise AnalysisBroken("anchor vanished: szmod parameter")
+        # conversion letter x size modifier -> popped type, by a path-sensitive enumeration of the two selector
+        # parameters over the CFG (if/else chains, switches and new dispatch helpers all look the same there)
+        chp = [p["d"] for p in f.params() if p["t"] == "char"]
+        if not chp:
+            raise AnalysisBroken("anchor vanished: conversion letter parameter")
+        enum = {}
+        for g in unit.functions:
+            for x in g.all_nodes():
+                if x.kind == "DeclRefExpr" and x.get("dk") == "EnumConstant" and x.get("t") == "frg::printf_size_mod" and x.cv() is not None:
+                    enum[x.cv()] = x.n
+        letters_dom = set()
+        for b_ in f.blocks.values():
+            if b_.termkind == "SwitchStmt" and b_.cond is not None and _is_var(f.node(b_.cond), chp[0]):
+                for _s, v_, _all in flow.switch_edges(f, b_.id):
+                    if v_ is not None:
+                        letters_dom.add(v_)
+        if not letters_dom:
+            raise AnalysisBroken("anchor vanished: dispatch on the conversion letter")
+        cell = {}
+
+        def observe(n, st):
+            if n.kind == "CallExpr" and n.callee and n.callee["uq"] == "frg::pop_arg" and not n.get("inlined"):
+                t_, m_ = st[chp[0]], st[szp[0]]
+                if t_ in letters_dom and m_ in enum:
+                    cell.setdefault((t_, enum[m_]), set()).add(((n.callee.get("targs") or "").strip("<>"), n.loc, n.id))
+        flow.value_states(f, {chp[0]: letters_dom, szp[0]: set(enum)}, observe)
+        per_letter = {}
+        for (t_, m_), tys in cell.items():
+            per_letter.setdefault(t_, {})[m_] = sorted(tys)
+        groups = {}
+        for t_, m in per_letter.items():
+            # letters that reach exactly the same pop sites form one conversion arm (`case 'd': case 'i':`)
+            groups.setdefault(tuple(sorted((k, tuple(x[2] for x in v)) for k, v in m.items())), []).append(t_)
         table = {}
-        for n in f.events():
-            if n.kind == "CallExpr" and n.callee and n.callee["uq"] == "frg::pop_arg":
-                cs = case_of(f, n.id)
-                ty = (n.callee.get("targs") or "").strip("<>")
-                mods = []
-                neg = []
-                for cond, truth in flow.facts_at(f, n.id):
-                    c = cond.strip()
-                    while c.kind == "UnaryOperator" and c.op == "!":
-                        c, truth = c.children[0].strip(), not truth
-                    if c.kind == "BinaryOperator" and c.op == "==" and _is_var(c.children[0], szp[0]):
-                        e = c.children[1].strip()
-                        name = (e.get("qn") or e.get("n") or "").split("::")[-1]
-                        (mods if truth else neg).append(name)
-                mod = mods[0] if mods else "default_size"
-                table.setdefault(cs, {})[mod] = (ty, n.loc)
+        for key, ls in groups.items():
+            m = {}
+            for k, v in per_letter[ls[0]].items():
+                m[k] = ("/".join(sorted({x[0] for x in v})), v[0][1])
+            table[tuple(sorted(ls))] = m
         if len(table) < 5:
             raise AnalysisBroken("anchor vanished: integer conversion arms (found %d)" % len(table))
         ref = None
@@ -422,57 +444,128 @@ def check_agent_discipline(ctx, unit):
 
 
 def check_logger(ctx, unit):
-    ctx.rule("B.logger-buffer", "every write into stack_buffer_logger's fixed buffer is dominated by the assertion "
-             "_off < Limit; a flush writes the terminator, emits, then resets _off; both append overloads flush alike", 3)
-    its = [f for f in unit.functions if f.owner_cls == "frg::stack_buffer_logger::item"]
-    if not its:
+    """Exact finite-state inductive invariant of the chunking logger item (witness: Limit = 16).
+    Fields are found structurally: the buffer is the fixed-extent array member, the offset is the integer member
+    that subscripts it.  Invariant I: 0 <= offset <= Limit-1 (room for the terminator).  The constructor establishes
+    I; every non-private member function, entered in any state of I, (a) subscripts the buffer only inside
+    [0, Limit), (b) calls the sink only directly after storing the terminator at the current offset, and (c)
+    re-establishes I on every normal exit.  States are the concrete offset values, so loops, helper extraction
+    (virtual inlining) and re-spelled conditions make no difference; a redundant assertion is not required."""
+    ctx.rule("B.logger-buffer", "stack_buffer_logger::item keeps 0 <= offset < Limit as an inductive invariant of all its "
+             "member functions: every buffer subscript is inside the array, every emit directly follows the terminator "
+             "store, and the invariant holds again at every exit (exact enumeration of the offset for the witness Limit)", 3)
+    recs = [r for r in unit.records if r["qn"].startswith("frg::stack_buffer_logger<") and r["qn"].endswith("::item")]
+    if not recs:
         raise AnalysisBroken("anchor vanished: stack_buffer_logger::item")
-    shapes = {}
-    for f in its:
-        writes = [n for n in f.events() if n.kind == "ArraySubscriptExpr" and path(n.children[0]) == ("this", "_buffer")]
-        if not writes:
-            continue
-        rec = [r for r in unit.records if r["qn"] == f.owner_clsqn]
-        limit = None
-        for r in rec:
-            for fl in r["fields"]:
-                if fl["n"] == "_buffer":
-                    limit = int(fl["extent"])
-        bad = []
-        for w in writes:
-            g = False
-            for cond, truth in flow.facts_at(f, w.id):
-                c = cond.strip()
-                while c.kind == "UnaryOperator" and c.op == "!":
-                    c, truth = c.children[0].strip(), not truth
-                if c.kind == "BinaryOperator" and c.op == "<" and truth and path(c.children[0]) == ("this", "_off") and \
-                        c.children[1].strip().cv() == limit:
-                    g = True
-            if not g:
-                bad.append("write to _buffer at %s is not dominated by _off < %s" % (w.loc, limit))
-        # flush order: _buffer[_off] = 0 ; _emit ; _off = 0
-        seq = []
-        for n in sorted(f.events(), key=lambda n: _lk(n.loc)):
-            w = write_of(n)
-            if w and w[0] and w[0][:2] == ("this", "_buffer") and w[1] is not None and w[1].strip().cv() == 0:
-                seq.append("term")
-            if n.is_call() and n.callee and n.callee["n"] == "_emit":
-                seq.append("emit")
-            if w and w[0] == ("this", "_off") and n.kind == "BinaryOperator" and w[1] is not None and w[1].strip().cv() == 0:
-                seq.append("reset")
-        shapes[f.sig] = tuple(seq)
-        if "emit" in seq:
-            i = seq.index("emit")
-            if "term" not in seq[:i]:
-                bad.append("emit without writing the terminator first")
-            if f.name == "append" and "reset" not in seq[i:]:
-                bad.append("_off is not reset after the flush")
-        ctx.inst("B.logger-buffer", f.sig, not bad, f.loc, "; ".join(bad) if bad else
-                 "%d buffer writes guarded; flush sequence %s" % (len(writes), list(seq)), f)
-    ap = {k: v for k, v in shapes.items() if "::append(" in k}
-    if len(ap) >= 2 and len(set(ap.values())) != 1:
-        ctx.inst("B.logger-buffer", "frg::stack_buffer_logger::item::append <sibling agreement>", False, "",
-                 "append(char) and append(const char*) flush differently: %s" % ap)
+    for rec in recs:
+        bufs = [fl for fl in rec["fields"] if fl.get("extent")]
+        if len(bufs) != 1:
+            raise AnalysisBroken("anchor vanished: fixed buffer of %s" % rec["qn"])
+        buf, limit = bufs[0]["n"], int(bufs[0]["extent"])
+        fns = [f for f in unit.functions if f.owner_clsqn == rec["qn"] and f.blocks]
+        off = None
+        for f in fns:
+            for n in f.events():
+                if n.kind == "ArraySubscriptExpr" and path(n.children[0]) == ("this", buf):
+                    for x in n.children[1].walk():
+                        if x.kind == "MemberExpr" and x.get("mk") == "Field" and path(x) and path(x)[0] == "this" and len(path(x)) == 2:
+                            off = path(x)[1]
+        if off is None:
+            raise AnalysisBroken("anchor vanished: offset member of %s" % rec["qn"])
+        OFFP = ("this", off)
+
+        def arith(node, cur):
+            def val(x):
+                x = x.strip()
+                if path(x) == OFFP and x.kind == "MemberExpr":
+                    return cur
+                if x.kind == "BinaryOperator" and x.op in ("+", "-", "*"):
+                    a_, b_ = flow.sem_eval(x.children[0], val), flow.sem_eval(x.children[1], val)
+                    if a_ is None or b_ is None:
+                        return None
+                    return {"+": a_ + b_, "-": a_ - b_, "*": a_ * b_}[x.op]
+                return None
+            return flow.sem_eval(node, val)
+
+        for f in fns:
+            if f.kind == "ctor":
+                inits = [n for n in f.events() if n.kind == "CtorInit" and n.get("field") == off]
+                for n in inits:
+                    iv = f.node(n.get("init")).strip() if n.get("init") is not None else None
+                    if iv is not None and iv.kind == "InitListExpr" and iv.children:
+                        iv = iv.children[0].strip()
+                    c = iv.cv() if iv is not None else None
+                    ctx.inst("B.logger-buffer", "%s: constructor establishes the invariant" % f.sig, c is not None and 0 <= c < limit,
+                             n.loc, "offset initialised to %s, buffer extent %d" % (c, limit), f)
+                continue
+            if f.kind == "dtor" or f.get("access") == "private":
+                continue
+            touches = any((path(n) == OFFP and n.kind == "MemberExpr") or
+                          (n.kind == "ArraySubscriptExpr" and path(n.children[0]) == ("this", buf)) for n in f.events())
+            if not touches:
+                continue
+            bad = {}
+            par = f.parent_map()
+
+            def transfer(n, st):
+                cur, term = st
+                k = n.kind
+                if k == "UnaryOperator" and n.op in ("++", "--") and path(n.children[0]) == OFFP:
+                    new = cur + (1 if n.op == "++" else -1)
+                    used = cur if n.get("post") else new
+                    p_ = par.get(n.id)
+                    hops = 0
+                    while p_ is not None and f.node(p_).kind in ("ImplicitCastExpr", "ParenExpr") and hops < 4:
+                        p_ = par.get(p_); hops += 1
+                    if p_ is not None and f.node(p_).kind == "ArraySubscriptExpr" and path(f.node(p_).children[0]) == ("this", buf):
+                        if not 0 <= used < limit:
+                            bad.setdefault(n.id, (n, "buffer subscript %d outside [0, %d)" % (used, limit)))
+                        return [(new, "idx:%d" % used)]
+                    return [(new, False)]
+                if k == "ArraySubscriptExpr" and path(n.children[0]) == ("this", buf):
+                    if isinstance(term, str):
+                        return [(cur, term)]          # index was produced by the ++/-- just handled
+                    i_ = arith(n.children[1], cur)
+                    if i_ is None or not 0 <= i_ < limit:
+                        bad.setdefault(n.id, (n, "buffer subscript %s outside [0, %d)" % (i_, limit)))
+                    return [(cur, "idx:%s" % i_)]
+                w = write_of(n)
+                if w and w[0] == OFFP and n.kind in ("BinaryOperator", "CompoundAssignOperator"):
+                    if n.kind == "BinaryOperator":
+                        v_ = arith(w[1], cur) if w[1] is not None else None
+                    else:
+                        r_ = arith(n.children[1], cur)
+                        v_ = None if r_ is None else (cur + r_ if n.op == "+=" else cur - r_ if n.op == "-=" else None)
+                    if v_ is None:
+                        bad.setdefault(n.id, (n, "offset assigned a value the analysis cannot evaluate"))
+                        return []
+                    return [(v_, False)]
+                if w and w[0] and w[0][:2] == ("this", buf) and n.kind == "BinaryOperator":
+                    idx = int(term[4:]) if isinstance(term, str) and term[4:].lstrip("-").isdigit() else None
+                    zero = w[1] is not None and w[1].strip().cv() == 0
+                    return [(cur, True if (zero and idx == cur) else False)]
+                if n.is_call() and n.callee and n.callee.get("cls") == "frg::stack_buffer_logger" and not n.callee.get("const") \
+                        and any(path(a) == ("this", buf) for a in n.args):
+                    if term is not True:
+                        bad.setdefault(n.id, (n, "buffer handed to the sink without a terminator stored at the current offset"))
+                    return [(cur, False)]
+                return [(cur, term)]
+
+            def refine(cond, truth, st):
+                v = arith(cond, st[0])
+                if v is None or bool(v) == truth:
+                    return [st]
+                return []
+            try:
+                _, ex = flow.run(f, [(v, False) for v in range(limit)], transfer, refine, limit=200000)
+            except flow.TooManyStates:
+                raise AnalysisBroken("logger invariant analysis of %s exceeded its state budget" % f.qn)
+            out = sorted({e[0] for e in ex if not 0 <= e[0] < limit})
+            msgs = ["%s at %s" % (t, n.loc) for n, t in bad.values()]
+            if out:
+                msgs.append("leaves offset = %s at exit (invariant 0 <= offset < %d broken; the next call overruns or traps)" % (out, limit))
+            ctx.inst("B.logger-buffer", f.sig, not msgs, f.loc, "; ".join(msgs) if msgs else
+                     "entered with offset in [0,%d): all subscripts in range, emits terminated, invariant restored" % limit, f)
 
 
 def check_fmt_spec(ctx, unit):
@@ -505,15 +598,127 @@ def check_fmt_spec(ctx, unit):
         ctx.inst("T.fmt-conversions", "frg::detail_::fmt_impl::parse_fmt_spec: letters", letters == want and rej, inner.loc,
                  "accepted letters %s, expected %s; other letters rejected: %s" % ("".join(sorted(letters)), "".join(sorted(want)), rej), f)
     fo = [f for f in unit.functions if f.name == "format_object" and "fmt_impl" in (f.owner_cls or "")]
+    if not fo:
+        raise AnalysisBroken("anchor vanished: format_object(fmt_impl)")
+    from .poly import Poly, to_poly
     for f in fo[:1]:
-        echo = [n for n in f.events() if n.is_call() and n.callee and n.callee["n"] == "format_object" and n.args
-                and n.args[0].strip().is_call() and n.args[0].strip().callee and n.args[0].strip().callee["n"] == "sub_string"]
-        starts = set()
+        def is_sub(x):
+            x = x.strip()
+            return x.is_call() and x.callee and x.callee["n"] == "sub_string" and x.callee.get("cls") == "frg::basic_string_view"
+        echo = [n for n in f.events() if n.is_call() and n.callee and n.callee["n"] == "format_object" and n.args and is_sub(n.args[0])]
+        if not echo:
+            raise AnalysisBroken("anchor vanished: echo of a specifier in format_object(fmt_impl)")
+        loops = flow.natural_loops(f)
+        ivars = {}
+        for lp in loops:
+            for v, info in flow.induction(f, lp).items():
+                ivars[v] = lp
+        if not ivars:
+            raise AnalysisBroken("anchor vanished: scanning loop of format_object(fmt_impl)")
+        # locals that record a position of the scan: assigned (only) from an induction variable inside its loop
+        recorded = {}
+        for n in f.events():
+            tgt, val = None, None
+            if n.kind == "BinaryOperator" and n.op == "=":
+                tgt, val = flow._var_of(n.children[0]), n.children[1]
+            elif n.kind == "DeclStmt":
+                for d in n.get("decls", []):
+                    if "init" in d:
+                        tgt, val = d["d"], f.node(d["init"])
+            if tgt is None or tgt in ivars:
+                continue
+            src = flow._var_of(val)
+            if src in ivars and ivars[src].contains(n):
+                recorded.setdefault(tgt, []).append(n)
+            elif val is not None and val.strip().cv() != 0:
+                recorded.setdefault(tgt, []).append(None)
+        recorded = {k: v for k, v in recorded.items() if all(x is not None for x in v)}
+
+        def leaf(x):
+            x = x.strip()
+            v = flow._var_of(x)
+            if v is not None:
+                return Poly.sym("v%d" % v)
+            if x.is_call() and x.callee and x.callee["n"] == "size" and x.callee.get("cls") == "frg::basic_string_view":
+                return Poly.sym("size")
+            return None
+        problems, starts = [], set()
         for e in echo:
             ss = e.args[0].strip()
-            starts.add(canon(ss.args[0]).split("#")[0])
-        ctx.inst("T.fmt-conversions", "frg::detail_::format_object: echo sites", len(echo) == 3 and len(starts) == 1, f.loc,
-                 "%d echo sites, start expressions %s" % (len(echo), sorted(starts)), f)
+            sargs = ss.args
+            st = flow._var_of(sargs[0]) if sargs else None
+            if st is None or st not in recorded:
+                problems.append("echo at %s does not start at a recorded scan position" % e.loc)
+                continue
+            starts.add(st)
+            ln = to_poly(sargs[1], leaf) if len(sargs) > 1 else None
+            if ln is None:
+                problems.append("echo length at %s is not an expression over recorded positions / size()" % e.loc)
+                continue
+            end = ln + Poly.sym("v%d" % st)       # one past the last echoed index
+            inside = any(lp.contains(e) for lp in loops)
+            if inside:
+                # closed specifier: echoes [start, close] where close is a recorded position or the induction variable
+                ok = any(end == Poly.sym("v%d" % v) + Poly.const(1) for v in list(recorded) + list(ivars) if v != st)
+                if not ok:
+                    problems.append("echo at %s does not end at the closing brace (start + length != close + 1)" % e.loc)
+            else:
+                if not end == Poly.sym("size"):
+                    problems.append("echo of the unclosed specifier at %s does not end at size()" % e.loc)
+        if len(starts) > 1:
+            problems.append("echo sites start at different variables")
+        # every failed parse / failed argument print is followed by an echo before the scan continues
+        fails = 0
+        deciders = {}
+        for blk in f.blocks.values():
+            if blk.cond is None or blk.noret or len(f.branch_edges(blk.id)) != 2 or f.branch_edges(blk.id)[0][1] is None:
+                continue
+            for c in f.node(blk.cond).walk():
+                if c.kind == "CXXMemberCallExpr" and c.callee and c.callee.get("cls") == "frg::detail_::fmt_impl" and (c.get("t") or "") == "bool" \
+                        and not c.get("inlined"):
+                    deciders.setdefault(c.id, []).append(blk.id)
+        for cid, bl in sorted(deciders.items()):
+            c = f.node(cid)
+            # the first branch (in dominance order) whose condition mentions the call decides on it
+            first = [b_ for b_ in bl if all(b_ == o or f.dominates_block(b_, o) for o in bl)]
+            for bid_ in first[:1]:
+                    blk = f.blocks[bid_]
+                    cn = f.node(blk.cond)
+                    v = flow.sem_eval(cn, lambda x: 0 if x.strip().id == c.id else None)
+                    if v is None:
+                        continue
+                    fails += 1
+                    for succ, _cnd, truth in f.branch_edges(blk.id):
+                        if truth != bool(v):
+                            continue
+                        seen, stack, miss = set(), [succ], False
+                        hdrs = {lp.header for lp in loops} | {f.exit}
+                        while stack and not miss:
+                            b_ = stack.pop()
+                            if b_ in seen:
+                                continue
+                            seen.add(b_)
+                            if any(x.id in {e.id for e in echo} for x in f.blocks[b_].nodes()):
+                                continue
+                            if b_ in hdrs:
+                                miss = True
+                                break
+                            # later branches that still depend on the failed call are decided by its value
+                            nxt = None
+                            if f.blocks[b_].cond is not None:
+                                be = f.branch_edges(b_)
+                                if len(be) == 2 and be[0][1] is not None:
+                                    v2 = flow.sem_eval(f.node(f.blocks[b_].cond), lambda x: 0 if x.strip().id == c.id else None)
+                                    if v2 is not None:
+                                        nxt = [s_ for s_, _c, t_ in be if t_ == bool(v2)]
+                            stack.extend(nxt if nxt is not None else f.blocks[b_].live_succs())
+                        if miss:
+                            problems.append("%s fails at %s and a path continues the scan without echoing the specifier" % (c.callee["n"], c.loc))
+        if fails < 2:
+            raise AnalysisBroken("anchor vanished: tested parse_fmt_spec / format_nth results (found %d)" % fails)
+        ctx.inst("T.fmt-conversions", "frg::detail_::format_object: echo sites", not problems, f.loc,
+                 "; ".join(problems) if problems else "%d echo sites start at the recorded '{', end at the recorded '}' / at size(); "
+                 "%d failure edges each lead to an echo" % (len(echo), fails), f)
 
 
 def check_pop_arg(ctx, unit):
